@@ -86,6 +86,9 @@ mod thread_local_cache;
 pub mod invalidation;
 pub mod utils;
 
+#[cfg(feature = "verif")]
+pub mod verif;
+
 #[cfg(feature = "stats")]
 mod stats;
 
